@@ -25,6 +25,10 @@ impl CancelIo for CancelIoImpl {
     unsafe fn cancel(&self) -> Option<std::io::Result<()>> {
         if let Some(e) = self.0.take() {
             if let Some(co) = e.co.take() {
+                // the interrupted operation is over: like `select`/`schedule`, take its io timer out, or it fires into
+                // whatever operation is blocked on this socket at that time (the socket may outlive the coroutine)
+                #[cfg(feature = "io_timeout")]
+                e.disarm_timer();
                 get_scheduler().schedule(co);
                 return Some(Ok(()));
             }
